@@ -61,6 +61,10 @@ def main(argv: list[str] | None = None) -> int:
         traceback.print_exc()
         print("HARNESS ERROR: self-test or internal assertion failed", file=sys.stderr)
         return 2
+    except Exception:     # the machinery itself broke: never exit code 1 (that is reserved for a reported violation)
+        traceback.print_exc()
+        print("HARNESS ERROR: the check crashed", file=sys.stderr)
+        return 2
     return 0
 
 
